@@ -28,7 +28,7 @@ from importlib.metadata import PackageNotFoundError, version
 from typing import Any, Optional
 
 from boolean.boolean import Expression
-from license_expression import Licensing
+from license_expression import ExpressionError, Licensing
 
 try:
     __version__ = version("reuse")
@@ -43,7 +43,22 @@ __REUSE_version__ = "3.3"
 
 _LOGGER = logging.getLogger(__name__)
 
-_LICENSING = Licensing()
+
+class _Licensing(Licensing):
+    """:class:`Licensing` whose :meth:`parse` reports every malformed
+    expression as an :class:`ExpressionError`."""
+
+    def parse(self, *args: Any, **kwargs: Any) -> Any:
+        try:
+            return super().parse(*args, **kwargs)
+        except IndexError as error:
+            # license_expression raises IndexError for e.g. '()'.
+            raise ExpressionError(
+                f"Invalid license expression: {args[0] if args else ''!r}"
+            ) from error
+
+
+_LICENSING = _Licensing()
 
 
 class SourceType(Enum):
